@@ -17,7 +17,8 @@ typedef struct {
 static Ctx ctxs[MAXT];
 /* shared read-only objects, set up once per execution by the main context */
 typedef struct { Skinny128Key_t k128; Skinny64Key_t k64; MantisKey_t km; Skinny128TweakedKey_t t128;
-                Skinny128ParallelECB_t p128; Skinny64ParallelECB_t p64; MantisParallelECB_t pm; } SharedObjs;
+                Skinny128ParallelECB_t p128; Skinny64ParallelECB_t p64; MantisParallelECB_t pm;
+                uint8_t key[48], tweak[16], counter[16]; } SharedObjs;   /* (const argument buffers that several threads pass to calls on their own objects) */
 static SharedObjs *shared_p;    /* the including file provides the storage */
 #define shared (*shared_p)
 
@@ -82,6 +83,21 @@ static void op_adj_par(Ctx *c)
     skinny64_set_key(&c->k64, c->key, 8); skinny64_ecb_encrypt(adj[4] + MAXT * 72 + t * 8, c->in, &c->k64); dg(c, adj[4] + MAXT * 72 + t * 8, 8);
 }
 
+/* distinct objects set up from the same const key / tweak / counter buffers (a table of constants in the caller's program) */
+static void op_sh_args(Ctx *c)
+{
+    dgi(c, skinny128_set_tweaked_key(&c->t128, shared.key, 32)); dgi(c, skinny128_set_tweak(&c->t128, shared.tweak, 16)); skinny128_ecb_encrypt(c->out, c->in, &c->t128.ks);
+    dgi(c, skinny64_set_tweaked_key(&c->t64, shared.key, 16)); dgi(c, skinny64_set_tweak(&c->t64, shared.tweak, 8)); skinny64_ecb_encrypt(c->out + 16, c->in, &c->t64.ks);
+    dgi(c, mantis_set_key(&c->km, shared.key, 16, 6, MANTIS_ENCRYPT)); dgi(c, mantis_set_tweak(&c->km, shared.tweak, 8)); mantis_ecb_crypt(c->out + 24, c->in, &c->km);
+    mantis_ecb_crypt_tweaked(c->out + 32, c->in, shared.tweak + 8, &c->km); dg(c, c->out, 40);
+    dgi(c, skinny128_ctr_init(&c->c128)); dgi(c, skinny128_ctr_set_tweaked_key(&c->c128, shared.key, 32)); dgi(c, skinny128_ctr_set_tweak(&c->c128, shared.tweak, 16));
+    dgi(c, skinny128_ctr_set_counter(&c->c128, shared.counter, 16)); dgi(c, skinny128_ctr_encrypt(c->out, c->in, 40, &c->c128)); skinny128_ctr_cleanup(&c->c128); dg(c, c->out, 40);
+    dgi(c, skinny64_ctr_init(&c->c64)); dgi(c, skinny64_ctr_set_key(&c->c64, shared.key, 24)); dgi(c, skinny64_ctr_set_counter(&c->c64, shared.counter, 8));
+    dgi(c, skinny64_ctr_encrypt(c->out, c->in, 20, &c->c64)); skinny64_ctr_cleanup(&c->c64); dg(c, c->out, 20);
+    dgi(c, mantis_parallel_ecb_init(&c->pm)); dgi(c, mantis_parallel_ecb_set_key(&c->pm, shared.key, 16, 5, MANTIS_ENCRYPT));
+    dgi(c, mantis_parallel_ecb_crypt(c->out, c->in, shared.key, 8 * 3, &c->pm)); mantis_parallel_ecb_cleanup(&c->pm); dg(c, c->out, 24);
+}
+
 extern int ctl_counter; int ctl_rmw(void);
 static void op_control(Ctx *c) { dgi(c, ctl_rmw()); dgi(c, ctl_rmw()); }
 
@@ -93,6 +109,7 @@ static const OpDef OPS[] = {
     {"all six init functions", op_inits, 0},
     {"shared skinny128 schedules (read only)", op_sh_s128, 1}, {"shared skinny64 schedule (read only)", op_sh_s64, 1}, {"shared mantis schedule (read only)", op_sh_mantis, 1},
     {"shared skinny128 parallel object (read only)", op_sh_p128, 1}, {"shared skinny64 parallel object (read only)", op_sh_p64, 1}, {"shared mantis parallel object (read only)", op_sh_pm, 1},
+    {"distinct objects set up from shared const key / tweak / counter buffers", op_sh_args, 1},
     {"CTR streams of distinct objects into adjacent slices of one array", op_adj_ctr, 0}, {"parallel ECB of distinct objects into adjacent slices of one array", op_adj_par, 0},
     {"CONTROL unsynchronised read-modify-write (harness-owned)", op_control, 0},
 };
@@ -120,6 +137,7 @@ static void shared_prepare(void)
     THR_PREPARE_HOOK;
 #endif
     memset(&shared, 0, sizeof(shared));
+    lcg_fill(shared.key, 48, 77); lcg_fill(shared.tweak, 16, 78); lcg_fill(shared.counter, 16, 79);
     skinny128_set_key(&shared.k128, k, 48); skinny64_set_key(&shared.k64, k, 16); mantis_set_key(&shared.km, k, 16, 8, MANTIS_ENCRYPT); mantis_set_tweak(&shared.km, k + 20, 8);
     skinny128_set_tweaked_key(&shared.t128, k, 16); skinny128_set_tweak(&shared.t128, k + 7, 16);
     skinny128_parallel_ecb_init(&shared.p128); skinny128_parallel_ecb_set_key(&shared.p128, k, 32);
